@@ -1,18 +1,22 @@
 #!/usr/bin/env python3
-"""Copies the confirmed seeded changes (and what the checks said about them) from /tmp/seed* into /verif/seeded/."""
-import glob, json, os, shutil, subprocess
+"""Copies newly confirmed seeded changes (and what the checks said about them) from a seeding round's scratch area into
+/verif/seeded/, then regenerates seeded/SUMMARY.md from every seeded/*/meta.json.
+
+usage: tools_seeded_collect.py [<results dir> <seed root> <prefix>]     e.g. /tmp/seed2/results/round2 /tmp/seed2 r2-
+Without arguments only the summary is regenerated."""
+import glob, json, os, shutil, subprocess, sys
 
 out_root = "/verif/seeded"
-rows = []
 head = subprocess.run(["git", "-C", "/repo", "rev-parse", "--short", "HEAD"], capture_output=True, text=True).stdout.strip()
-SOURCES = [("/tmp/seed/results/final", "/tmp/seed", ""), ("/tmp/seed/results/round2", "/tmp/seed2", "r2-")]
-for resdir, seedroot, prefix in SOURCES:
+not_confirmed = []
+if len(sys.argv) >= 4:
+    resdir, seedroot, prefix = sys.argv[1:4]
     for f in sorted(glob.glob(f"{resdir}/C*.json")):
         pid = os.path.basename(f)[:-5]
         for e in json.load(open(f)):
             name = f"{prefix}{pid}-{e['k']}"
             if not e.get("confirmed"):
-                rows.append((name, "NOT CONFIRMED (not kept)", "", e.get("meta", {}).get("summary", "")))
+                not_confirmed.append((name, e.get("meta", {}).get("summary", "")))
                 continue
             src = f"{seedroot}/{pid}/_seeded/{e['k']}"
             dst = f"{out_root}/{name}"
@@ -22,6 +26,7 @@ for resdir, seedroot, prefix in SOURCES:
             shutil.copy(f"{src}/{demo}", f"{dst}/{demo}")
             detected = [cp for cp, c in e["checks"].items() if c.get("exit") == 1]
             keys = sorted({k for c in e["checks"].values() for k in c.get("keys", [])})
+            old = json.load(open(f"{dst}/meta.json")) if os.path.exists(f"{dst}/meta.json") else {}
             meta = {
                 "property": pid,
                 "summary": e["meta"].get("summary", ""),
@@ -37,9 +42,27 @@ for resdir, seedroot, prefix in SOURCES:
                 "detected_by_quick_check_of": detected,
                 "violation_keys": keys,
             }
+            # the first verdict of the checks on a change is kept for the record when a later, strengthened check is re-run on it
+            first = old.get("first_run", None)
+            if first is None and old.get("what_was_run"):
+                first = {"detected_by_quick_check_of": old.get("detected_by_quick_check_of", []), "violation_keys": old.get("violation_keys", [])}
+            if first is not None:
+                meta["first_run"] = first
             json.dump(meta, open(f"{dst}/meta.json", "w"), indent=1)
-            outcome = ("detected by " + ",".join(detected)) if detected else "MISSED (" + ",".join(f"{cp}: exit {c.get('exit')}" for cp, c in e["checks"].items()) + ")"
-            rows.append((name, outcome, ", ".join(keys[:3]), meta["summary"]))
+
+rows = []
+for d in sorted(glob.glob(f"{out_root}/*/")):
+    name = os.path.basename(d.rstrip("/"))
+    mf = f"{d}/meta.json"
+    if not os.path.exists(mf):
+        continue
+    meta = json.load(open(mf))
+    detected = meta.get("detected_by_quick_check_of", [])
+    outcome = ("detected by " + ",".join(detected)) if detected else "MISSED"
+    first = meta.get("first_run")
+    if first is not None and not first.get("detected_by_quick_check_of") and detected:
+        outcome += " (missed at first; caught after the harness was strengthened)"
+    rows.append((name, outcome, ", ".join(meta.get("violation_keys", [])[:3]), meta.get("summary", "")))
 with open(f"{out_root}/SUMMARY.md", "w") as fh:
     fh.write("| seeded change | outcome of the quick check | violation keys | what the change does |\n|---|---|---|---|\n")
     for name, outcome, keys, summ in rows:
@@ -47,4 +70,4 @@ with open(f"{out_root}/SUMMARY.md", "w") as fh:
     notes = "/verif/seeded/NOTES.md"
     if os.path.exists(notes):
         fh.write("\n" + open(notes).read())
-print(f"{len(rows)} seeded changes, detected {sum(1 for r in rows if r[1].startswith('detected'))}")
+print(f"{len(rows)} seeded changes, detected {sum(1 for r in rows if r[1].startswith('detected'))}; not confirmed (not kept): {not_confirmed}")
